@@ -50,7 +50,9 @@ EXTRA_TARGETS = ["Drv.LinSolve"]
 DRIVER = "LinSolve"
 FILES = ["scico/optimize/_admmaux.py", "scico/solver.py", "scico/loss.py", "scico/linop/_circconv.py"]
 RULE = (
-    "streams dense (Linear/scico-cg, Linear/jax-cg, Matrix, Generic on the same problem), history (the same, on a loss that was "
+    "streams kwhist (constructions of LinearSubproblemSolver objects with various cg_kwargs before/after the probed default one), reuse (one "
+    "solver instance attached to two ADMM objects with different data, all 7 solver classes), "
+    "dense (Linear/scico-cg, Linear/jax-cg, Matrix, Generic on the same problem), history (the same, on a loss that was "
     "used - Hessian, prox, an ADMM built on it - and then rescaled by c*L, L*c, L/c, set_scale, twice), circ, fblock, g0: random sizes (n<=5, "
     "K<=3, N<=6), real/complex, f none/Matrix/Diagonal/CircularConvolve/Identity forward operator, scale in {0.25,0.5,1,2}, weights "
     "none/positive/with zeros, 1-3 C_i (Identity, Diagonal, MatrixOperator, CircularConvolve, circular FiniteDifference), rho dyadic>0, "
@@ -485,7 +487,7 @@ def gen_circ(rng):
     return {"kind": "circ", "shape": shape, "cplx": cplx, "f": f, "terms": terms}
 
 
-def _build_circ(case):
+def _build_circ(case, sv=None):
     S = _setup()
     jnp, linop, loss, functional, ADMM, aux = S["jnp"], S["linop"], S["loss"], S["functional"], S["ADMM"], S["aux"]
     shape, cplx = tuple(case["shape"]), case["cplx"]
@@ -509,7 +511,7 @@ def _build_circ(case):
             C_list.append(linop.CircularConvolve(jnp.array(_arr(t["h"], cplx, t["ks"]), dtype=dt), input_shape=shape, ndims=nd, input_dtype=dt))
         else:
             C_list.append(linop.FiniteDifference(shape, input_dtype=dt, circular=True))
-    sv = aux.CircularConvolveSolver(ndims=nd)
+    sv = aux.CircularConvolveSolver(ndims=nd) if sv is None else sv
     admm = ADMM(f=f, g_list=[functional.ZeroFunctional() for _ in C_list], C_list=C_list, rho_list=[t["rho"] for t in case["terms"]],
                 x0=jnp.zeros(shape, dtype=dt), maxiter=1, subproblem_solver=sv)
     admm.z_list = [jnp.array(_arr(t["z"], cplx, t["oshape"]), dtype=dt) for t in case["terms"]]
@@ -619,7 +621,7 @@ def gen_block(rng, which):
     return case
 
 
-def _build_block(case):
+def _build_block(case, sv=None):
     S = _setup()
     jnp, linop, loss, functional, ADMM, aux = S["jnp"], S["linop"], S["loss"], S["functional"], S["ADMM"], S["aux"]
     K, N, cplx = case["K"], case["N"], case["cplx"]
@@ -640,13 +642,13 @@ def _build_block(case):
     if case["kind"] == "fblock":
         W = None if case["W"] is None else linop.Diagonal(jnp.array(np.array(case["W"]), dtype=np.float64))
         f = loss.SquaredL2Loss(y=y, A=AA, scale=case["scale"], W=W)
-        sv = aux.FBlockCircularConvolveSolver(ndims=1, check_solve=True)
+        sv = aux.FBlockCircularConvolveSolver(ndims=1, check_solve=True) if sv is None else sv
         admm = ADMM(f=f, g_list=[functional.ZeroFunctional() for _ in C_list], C_list=C_list, rho_list=rhos, x0=jnp.zeros(ishape, dtype=dt),
                     maxiter=1, subproblem_solver=sv)
         admm.z_list, admm.u_list = zs, us
     else:
         g1 = loss.SquaredL2Loss(y=y, scale=case["scale"])
-        sv = aux.G0BlockCircularConvolveSolver(ndims=1, check_solve=True)
+        sv = aux.G0BlockCircularConvolveSolver(ndims=1, check_solve=True) if sv is None else sv
         admm = ADMM(f=functional.ZeroFunctional(), g_list=[g1] + [functional.ZeroFunctional() for _ in C_list], C_list=[AA] + C_list,
                     rho_list=[case["rho1"]] + rhos, x0=jnp.zeros(ishape, dtype=dt), maxiter=1, subproblem_solver=sv)
         admm.z_list = [jnp.array(_arr(case["z1"], cplx), dtype=dt)] + zs
@@ -759,11 +761,238 @@ def run_block(ctx, model, case):
 
 
 # =============================================================================================
+# life-cycle streams (round 2, seeded C14-n1 / C10-n3): what a solver object does must depend on its own constructor
+# arguments and on the ADMM object it is attached to *now* - not on solver objects built earlier, not on an earlier attachment
 
-RUNNERS = {"dense": run_dense, "history": run_dense, "circ": run_circ, "fblock": run_block, "g0": run_block}
-GENS = {"dense": gen_dense, "history": gen_history, "circ": gen_circ, "fblock": lambda rng: gen_block(rng, "fblock"), "g0": lambda rng: gen_block(rng, "g0")}
-ORACLES = {"dense": oracle_dense, "history": oracle_dense, "circ": oracle_circ, "fblock": oracle_block, "g0": oracle_block}
-BUDGET = {"dense": (20, 220), "history": (12, 120), "circ": (30, 300), "fblock": (16, 160), "g0": (16, 160)}
+CG_DEFAULTS = {"tol": 1e-4, "maxiter": 100}  # documented: "the same as those of scico.solver.cg, except for tol 1e-4 and maxiter 100"
+_KW_POOL = [{"tol": 1e-1, "maxiter": 2}, {"maxiter": 1}, {"tol": 0.5}, {"tol": 1e-12, "maxiter": 300}, {"atol": 4.0}, {"tol": 1e-2, "maxiter": 3}, None]
+
+
+def gen_kwhist(rng):
+    """a sequence of LinearSubproblemSolver constructions with various cg_kwargs, then the probed one (defaults or partial keys)"""
+    prob = _gen_where(gen_dense, rng, lambda c: c["n"] >= 2)
+    hist = [{"cg_kwargs": _KW_POOL[int(rng.integers(0, len(_KW_POOL)))], "cg_function": str(rng.choice(["scico", "jax"]))}
+            for _ in range(int(rng.integers(1, 4)))]
+    probe = {"cg_kwargs": [None, None, {"tol": 1e-9}, {"maxiter": 50}][int(rng.integers(0, 4))], "cg_function": str(rng.choice(["scico", "scico", "jax"]))}
+    after = [{"cg_kwargs": _KW_POOL[int(rng.integers(0, len(_KW_POOL)))], "cg_function": "scico"} for _ in range(int(rng.integers(0, 2)))]
+    return {"kind": "kwhist", "problem": prob, "history": hist, "probe": probe, "after": after}
+
+
+def _merged(kw):
+    d = dict(CG_DEFAULTS)
+    if kw:
+        d.update(kw)
+    return d
+
+
+def _impl_kwhist(case):
+    S = _setup()
+    jnp, aux = S["jnp"], S["aux"]
+    prob = case["problem"]
+    cplx = prob["cplx"]
+    try:
+        earlier = [aux.LinearSubproblemSolver(cg_kwargs=None if h["cg_kwargs"] is None else dict(h["cg_kwargs"]), cg_function=h["cg_function"])
+                   for h in case["history"]]
+        pk = case["probe"]["cg_kwargs"]
+        sv = aux.LinearSubproblemSolver(cg_kwargs=None if pk is None else dict(pk), cg_function=case["probe"]["cg_function"])
+        later = [aux.LinearSubproblemSolver(cg_kwargs=None if h["cg_kwargs"] is None else dict(h["cg_kwargs"]), cg_function=h["cg_function"])
+                 for h in case["after"]]
+        admm = _build_dense(prob, sv)
+        x = sv.solve(jnp.array(_arr(prob["x0"], cplx), dtype=_dt(cplx)))
+    except Exception as e:  # noqa: BLE001
+        return {"err": common.err_kind(e), "msg": repr(e)[:200]}
+    return {"x": np.array(x), "kw": dict(sv.cg_kwargs), "kw_earlier": [dict(e.cg_kwargs) for e in earlier], "kw_later": [dict(e.cg_kwargs) for e in later],
+            "info": sv.info, "admm": admm}
+
+
+def _kw_bad(case, im):
+    if im["kw"] != _merged(case["probe"]["cg_kwargs"]):
+        return {"cg_kwargs_of_probed_solver": im["kw"], "documented": _merged(case["probe"]["cg_kwargs"])}
+    for h, got in zip(case["history"] + case["after"], im["kw_earlier"] + im["kw_later"]):
+        if got != _merged(h["cg_kwargs"]):
+            return {"cg_kwargs_of_another_solver": got, "its_arguments_give": _merged(h["cg_kwargs"])}
+    return None
+
+
+def oracle_kwhist(case):
+    """C10 on the implementation: the probed solver meets the normal equations to ITS stated accuracy (documented defaults
+    merged with its own arguments) unless its own iteration limit was reached"""
+    im = _impl_kwhist(case)
+    if "err" in im:
+        return {"unexpected_error": im["err"], "msg": im.get("msg")}
+    H, q, *_ = _dense_numpy(case["problem"])
+    kw = _merged(case["probe"]["cg_kwargs"])
+    res = float(np.linalg.norm(q - H @ im["x"]))
+    thr = max(kw["tol"] * float(np.linalg.norm(q)), kw.get("atol", 0.0))
+    iters = None if im["info"] is None else int(im["info"]["num_iter"])
+    if not np.all(np.isfinite(im["x"])):
+        return {"x_not_finite": tolist(im["x"])}
+    if iters is not None and iters < kw["maxiter"] and res > thr * (1 + 1e-6) + 1e-10 * float(np.linalg.cond(H)) * (1 + float(np.linalg.norm(q))):
+        return {"stopped_after": iters, "own_maxiter": kw["maxiter"], "residual_of_normal_equations": res, "stated_accuracy": thr, "x": tolist(im["x"])}
+    return _kw_bad(case, im)
+
+
+def run_kwhist(ctx, model, case):
+    prob = case["problem"]
+    n, cplx = prob["n"], prob["cplx"]
+    dtc = "c" if cplx else "r"
+    ctx.count("kwhist:probe=" + ("defaults" if case["probe"]["cg_kwargs"] is None else "+".join(sorted(case["probe"]["cg_kwargs"]))))
+    ctx.count("kwhist:cg=" + case["probe"]["cg_function"])
+    ctx.count(f"kwhist:earlier={len(case['history'])}")
+    im = _impl_kwhist(case)
+    ctx.case({"kind": "kwhist", "n": n, "history": [h["cg_kwargs"] for h in case["history"]], "probe": case["probe"]}, _key(case))
+    if "err" in im:
+        ctx.disagree("c10.kwhist.error", case, {"err": im["err"], "msg": im["msg"]}, "ok", oracle=oracle_kwhist)
+        return
+    bad = _kw_bad(case, im)
+    if bad:
+        ctx.disagree("c10.kwhist.cg_kwargs", case, bad, "documented defaults updated by the object's own arguments", oracle=oracle_kwhist)
+        return
+    # the model's cg (resp. the jax contract model) on the documented system with the merged arguments
+    H, q, *_ = _dense_numpy(prob)
+    kw = _merged(case["probe"]["cg_kwargs"])
+    x0 = _arr(prob["x0"], cplx)
+    args = dict(dt=dtc, n=n, A=enc(H, cplx), M=None, b=enc(q, cplx), x0=enc(x0, cplx), tol=f2b(kw["tol"]), atol=f2b(kw.get("atol", 0.0)),
+                maxiter=kw["maxiter"])
+    if case["probe"]["cg_function"] == "scico":
+        r = model.call("cg", linop=True, **args)
+        K, margins = r["num_iter"], [(float(np.real(dec(t["num"], cplx)[0])), b2f(r["tolsq"])) for t in r["trace"]]
+    else:
+        r = model.call("jaxcg", **args)
+        K, margins = r["k"], [(b2f(t["rs"]), b2f(r["atol2"])) for t in r["trace"]]
+    for v, t in margins:
+        if t > 0 and 0 < abs(v - t) / t < 1e-3:
+            ctx.count("kwhist:discard-near-tie")
+            return
+    mx = dec(r["x"], cplx)
+    kk = 100 * n * (K + 2)
+    cond = float(np.linalg.cond(H))
+    if im["info"] is not None and int(im["info"]["num_iter"]) != K:
+        ctx.disagree("c10.kwhist.num_iter", case, int(im["info"]["num_iter"]), K, oracle=oracle_kwhist)
+    elif not vclose(im["x"], mx, kk, rtol=1e-7 * max(1.0, cond)):
+        ctx.disagree("c10.kwhist.x", case, tolist(im["x"]), tolist(mx), oracle=oracle_kwhist)
+
+
+_REUSE_SOLVERS = ["linear-scico", "linear-jax", "matrix", "generic", "circ", "fblock", "g0"]
+
+
+def gen_reuse(rng, which=None):
+    """one solver INSTANCE attached to a first ADMM object, used, then attached to a second ADMM with different data"""
+    which = which or _REUSE_SOLVERS[int(rng.integers(0, len(_REUSE_SOLVERS)))]
+    if which in ("linear-scico", "linear-jax", "matrix", "generic"):
+        ok1 = (lambda c: not c["cplx"]) if which == "generic" else (lambda c: True)
+        first = _gen_where(gen_dense, rng, lambda c: c["f"] is not None and ok1(c))
+        second = _gen_where(gen_dense, rng, lambda c: c["f"] is not None and c["n"] == first["n"] and c["cplx"] == first["cplx"])
+    elif which == "circ":
+        first = _gen_where(gen_circ, rng, lambda c: c["f"] is not None and c["f"]["W"] is None)
+        second = _gen_where(gen_circ, rng, lambda c: c["f"] is not None and c["f"]["W"] is None and c["shape"] == first["shape"] and c["cplx"] == first["cplx"])
+    else:
+        fix = (lambda c: c["W"] is None) if which == "fblock" else (lambda c: c["scale"] == 0.5)
+        first = _gen_where(GENS[which], rng, fix)
+        second = _gen_where(GENS[which], rng, lambda c: fix(c) and (c["K"], c["N"], c["cplx"]) == (first["K"], first["N"], first["cplx"]))
+    return {"kind": "reuse", "solver": which, "first": first, "second": second}
+
+
+def _new_solver(which):
+    aux = _S["aux"]
+    if which == "linear-scico":
+        return aux.LinearSubproblemSolver(cg_kwargs={"tol": 1e-11, "maxiter": 300}, cg_function="scico")
+    if which == "linear-jax":
+        return aux.LinearSubproblemSolver(cg_kwargs={"tol": 1e-11, "maxiter": 300}, cg_function="jax")
+    if which == "matrix":
+        return aux.MatrixSubproblemSolver(check_solve=True)
+    if which == "generic":
+        return aux.GenericSubproblemSolver(minimize_kwargs={"options": {"maxiter": 300}})
+    if which == "circ":
+        return aux.CircularConvolveSolver(ndims=None)
+    if which == "fblock":
+        return aux.FBlockCircularConvolveSolver(ndims=1, check_solve=True)
+    return aux.G0BlockCircularConvolveSolver(ndims=1, check_solve=True)
+
+
+def _attach_and_solve(which, prob, sv):
+    """attach `sv` to a new ADMM object for `prob` (random z, u of the case), solve; returns x, documented relative residual, rhs"""
+    jnp = _S["jnp"]
+    if which in ("linear-scico", "linear-jax", "matrix", "generic"):
+        cplx = prob["cplx"]
+        _build_dense(prob, sv)
+        x = np.array(sv.solve(jnp.array(_arr(prob["x0"], cplx), dtype=_dt(cplx))))
+        H, q, *_ = _dense_numpy(prob)
+        rhs = np.array(sv.compute_rhs()) if which != "generic" else None
+        return x, _relres(H @ x, q), rhs, q
+    if which == "circ":
+        if sv.ndims is None:
+            sv.ndims = len(prob["shape"])
+        admm, sv, Aop, C_list = _build_circ(prob, sv)
+        x = sv.solve(admm.x)
+        return np.array(x), _circ_residual(prob, admm, Aop, C_list, x), np.array(sv.compute_rhs()), None
+    admm, sv, AA, C_list = _build_block(prob, sv)
+    x = sv.solve(admm.x)
+    return np.array(x), _block_documented(prob, admm, AA, C_list, x), np.array(sv.compute_rhs()), None
+
+
+def _impl_reuse(case):
+    _setup()
+    which = case["solver"]
+    try:
+        sv = _new_solver(which)
+        _attach_and_solve(which, case["first"], sv)
+        x2, res2, rhs2, q2 = _attach_and_solve(which, case["second"], sv)
+        xf, resf, rhsf, _ = _attach_and_solve(which, case["second"], _new_solver(which))
+    except Exception as e:  # noqa: BLE001
+        return {"err": common.err_kind(e), "msg": repr(e)[:200]}
+    return {"x": x2, "res": res2, "rhs": rhs2, "q": q2, "x_fresh": xf, "res_fresh": resf, "rhs_fresh": rhsf}
+
+
+def _reuse_tol(case):
+    which = case["solver"]
+    if which in ("linear-scico", "linear-jax", "matrix", "generic"):
+        H, *_ = _dense_numpy(case["second"])
+        return {"linear-scico": 1e-9, "linear-jax": 1e-8, "matrix": 1e-11, "generic": 1e-3}[which] * max(1.0, float(np.linalg.cond(H)))
+    return 1e-8
+
+
+def oracle_reuse(case):
+    im = _impl_reuse(case)
+    if "err" in im:
+        return {"unexpected_error": im["err"], "msg": im.get("msg")}
+    if not np.all(np.isfinite(im["x"])) or im["res"] > _reuse_tol(case):
+        return {"solver": case["solver"], "relative_residual_of_normal_equations_after_reattachment": im["res"], "with_a_fresh_solver": im["res_fresh"],
+                "x": tolist(im["x"]), "x_fresh": tolist(im["x_fresh"])}
+    return None
+
+
+def run_reuse(ctx, model, case):
+    which = case["solver"]
+    ctx.count("reuse:" + which)
+    im = _impl_reuse(case)
+    ctx.case({"kind": "reuse", "solver": which}, _key(case))
+    if "err" in im:
+        ctx.disagree("c10.reuse.error", case, {"err": im["err"], "msg": im["msg"]}, "ok", oracle=oracle_reuse)
+        return
+    N = int(np.size(im["x"]))
+    kk = 100 * N
+    bad = None
+    if im["rhs"] is not None and im["q"] is not None and not vclose(im["rhs"].ravel(), im["q"].ravel(), kk):
+        bad = ("compute_rhs", tolist(im["rhs"]), tolist(im["q"]))  # q: the documented right-hand side (= the model's, see run_dense)
+    elif im["rhs"] is not None and not vclose(im["rhs"].ravel(), im["rhs_fresh"].ravel(), kk):
+        bad = ("compute_rhs-vs-fresh-solver", tolist(im["rhs"]), tolist(im["rhs_fresh"]))
+    elif not vclose(im["x"].ravel(), im["x_fresh"].ravel(), kk, rtol=max(1e-7, 10 * _reuse_tol(case))):
+        bad = ("x-vs-fresh-solver", tolist(im["x"]), tolist(im["x_fresh"]))
+    elif im["res"] > _reuse_tol(case):
+        bad = ("normal-equations", im["res"], 0.0)
+    if bad:
+        ctx.disagree("c10.reuse." + bad[0], case, bad[1], bad[2], oracle=oracle_reuse)
+
+
+# =============================================================================================
+
+RUNNERS = {"dense": run_dense, "history": run_dense, "circ": run_circ, "fblock": run_block, "g0": run_block, "kwhist": run_kwhist, "reuse": run_reuse}
+GENS = {"dense": gen_dense, "history": gen_history, "circ": gen_circ, "fblock": lambda rng: gen_block(rng, "fblock"), "g0": lambda rng: gen_block(rng, "g0"),
+        "kwhist": gen_kwhist, "reuse": gen_reuse}
+ORACLES = {"dense": oracle_dense, "history": oracle_dense, "circ": oracle_circ, "fblock": oracle_block, "g0": oracle_block, "kwhist": oracle_kwhist,
+           "reuse": oracle_reuse}
+BUDGET = {"dense": (20, 220), "history": (12, 120), "circ": (30, 300), "fblock": (16, 160), "g0": (16, 160), "kwhist": (10, 80), "reuse": (14, 105)}
 
 
 
@@ -792,6 +1021,14 @@ STRATA = {
         lambda c: c["f"] is not None and c["f"]["kind"] == "conv" and c["f"]["W"] is None and any(t["kind"] == "fd" for t in c["terms"]),
     ],
     "fblock": [lambda c: c["cplx"] and c["W"] is None and c["K"] >= 2 and any(t["kind"] == "conv" for t in c["terms"])],
+    "kwhist": [
+        lambda c: c["probe"]["cg_kwargs"] is None and c["probe"]["cg_function"] == "scico" and any(
+            h["cg_kwargs"] and h["cg_kwargs"].get("maxiter", 100) <= 2 for h in c["history"]) and c["problem"]["n"] >= 4,
+        lambda c: c["probe"]["cg_kwargs"] is None and c["probe"]["cg_function"] == "jax" and any(
+            h["cg_kwargs"] and h["cg_kwargs"].get("maxiter", 100) <= 2 for h in c["history"]) and c["problem"]["n"] >= 4,
+        lambda c: c["probe"]["cg_kwargs"] == {"tol": 1e-9} and any(h["cg_kwargs"] and "maxiter" in h["cg_kwargs"] for h in c["history"]),
+    ],
+    "reuse": [(lambda w: (lambda c: c["solver"] == w))(w) for w in _REUSE_SOLVERS],
     "g0": [lambda c: c["K"] >= 2 and len(c["terms"]) == 2 and c["terms"][0]["rho"] != c["terms"][1]["rho"] and c["rho1"] != c["terms"][0]["rho"]],
 }
 
